@@ -27,10 +27,14 @@ func checkC10(c *Ctx) {
 	c.checkOnOffSymmetry()
 	c.checkNoLostUpdate()
 	// each recipient gets its own copy of the {pres} payload
-	c.checkMessageCopyIsDeep()
+	c.R.Scoped(func(rule, construct string) bool { return strings.Contains(construct, "Pres") }, c.checkMessageCopyIsDeep)
 	c.checkPayloadFreshPerMessage()
 	c.checkIntersectionPairsAreGenerations("C10.7-intersections-pair-generations")
-	c.checkIntersect()
+	// of the module-wide intersection census only the predicates presence depends on (P, R, and J for
+	// "upd")
+	c.R.Scoped(func(rule, construct string) bool {
+		return strings.HasPrefix(construct, "IsPresencer()") || strings.HasPrefix(construct, "IsReader()") || strings.HasPrefix(construct, "IsJoiner()")
+	}, c.checkIntersect)
 }
 
 func (c *Ctx) checkOfflineFanout() {
